@@ -306,7 +306,10 @@ func ruleGroupMisc(c *Ctx, rule string) {
 		fn := fn
 		an.AllInstrs(fn, func(in ssa.Instruction) {
 			call, ok := in.(*ssa.Call)
-			if !ok || !strings.HasPrefix(an.CalleeName(&call.Call), "dynamic:recv.call") {
+			if !ok {
+				return
+			}
+			if n := an.CalleeName(&call.Call); !(strings.HasPrefix(n, "dynamic:recv.") && strings.HasSuffix(n, ".call") || strings.HasPrefix(n, "dynamic:recv.call")) {
 				return
 			}
 			n++
@@ -771,7 +774,21 @@ func noDuplicateNameEdge(b *ssa.BasicBlock, succ int) bool {
 			return false
 		}
 		if n := an.CalleeName(&call.Call); n != "slices.IndexFunc" {
-			return false
+			// the group's own index-by-name helper: every return is slices.IndexFunc over the router list
+			g := an.StaticCallee(&call.Call)
+			if g == nil || !an.InModule(g) || len(g.Blocks) == 0 {
+				return false
+			}
+			rets := an.Returns(g)
+			for _, r := range rets {
+				rc, isCall := r.Results[0].(*ssa.Call)
+				if len(r.Results) != 1 || !isCall || an.CalleeName(&rc.Call) != "slices.IndexFunc" || an.AP(rc.Call.Args[0]) != "recv.routers" {
+					return false
+				}
+			}
+			if len(rets) == 0 {
+				return false
+			}
 		}
 		k, isC := bo.Y.(*ssa.Const)
 		if !isC || k.Value == nil {
